@@ -44,7 +44,9 @@ FullTypes == <<
   A(2, {}, "reject", 10, "predicted", "always", "active", "target"),  \* 15
   A(3, {1}, "support", 7, "inferred", "always", "active", "rival"),   \* 16 rival value supported: opposes
   A(1, {}, "reject", 9, "stated", "always", "active", "rival"),       \* 17 rival value rejected: nothing
-  A(2, {}, "support", 9, "stated", "always", "retracted", "rival")    \* 18 rival retracted: nothing, unlisted
+  A(2, {}, "support", 9, "stated", "always", "retracted", "rival"),   \* 18 rival retracted: nothing, unlisted
+  S(1, {3}, "support", 0),                                            \* 19 a STATED confidence of zero is zero, not "unstated"
+  S(3, {},  "reject", 0)                                              \* 20 zero-confidence opposition: engaged, never material
 >>
 
 Types == IF Family = "agg" THEN AggTypes ELSE FullTypes
